@@ -129,6 +129,10 @@ func c04Specs(tier string, seed int) []c04Spec {
 					s.Sent = []string{iso(y, 12, 31) + ":" + col, iso(y+2, 1, 1) + ":" + col}
 				})
 			}
+			// missing values on the last simulated day (the series goes on) and on the first one
+			with(func(s *c04Spec) { s.Kind = "sentinel-on-last-simulated-day"; s.Sent = []string{end + ":sun", end + ":verd"} })
+			with(func(s *c04Spec) { s.Kind = "sentinel-on-last-simulated-day"; s.SimEnd = iso(y+1, 11, 15); s.Sent = []string{iso(y+1, 11, 15) + ":sun", iso(y+1, 11, 15) + ":verd"} })
+			with(func(s *c04Spec) { s.Kind = "sentinel-on-first-simulated-day"; s.Sent = []string{st + ":sun", st + ":verd"} })
 			// an optional column without any value in a later calendar year (after a year that has values)
 			for _, col := range []string{"sun", "verd"} {
 				with(func(s *c04Spec) { s.Kind = "column-empty-in-second-year-" + col; s.SentYear = []string{fmt.Sprintf("%d:%s", y+1, col)} })
